@@ -583,6 +583,12 @@ PPL::Grid::relation_with(const Grid_Generator& g) const {
     return Poly_Gen_Relation::subsumes();
   }
 
+  // An inconsistent congruence system is satisfied by every line and
+  // parameter: make sure that emptiness has been detected.
+  if (!generators_are_up_to_date() && !update_generators()) {
+    return Poly_Gen_Relation::nothing();
+  }
+
   if (!congruences_are_up_to_date()) {
     update_congruences();
   }
